@@ -224,6 +224,7 @@ def refuse_impl(a):
     return h.verdict(ok)
 
 
+BUDGET_S = {"thorough": 900}  # wall budget of the thorough tier: queries not started by then are reported as not run
 LAST_DETAIL = [""]
 
 
